@@ -4,7 +4,10 @@ go 1.23.0
 
 toolchain go1.23.5
 
-require github.com/maruel/panicparse/v2 v2.0.0
+require (
+	github.com/maruel/panicparse/v2 v2.0.0
+	golang.org/x/net v0.34.0
+)
 
 require (
 	github.com/mattn/go-colorable v0.1.14 // indirect
